@@ -166,6 +166,28 @@ let () =
                  if ms <> is then report_mism ms is
                end
            | _ -> failwith "bad X observations")
+      | "T" :: lo :: hi :: s :: nv :: _q :: g :: e :: v :: tie :: [] ->
+          (* values 1..n and one quantile whose exact rank ends in one half: the exact order statistic decides *)
+          incr n;
+          let n_ = int_of_string nv in
+          let vs = List.init n_ (fun i -> z_of_int (i + 1)) in
+          if not (c13_ok_quant (zs lo) (zs hi) (zs s) vs [(zs e, zs v)]) then begin
+            if tie = "1" && g <> e then
+              Printf.printf "KNOWN quantile-tie n=%s q=%s: rank computed %s, exact rank %s, value %s\n" nv _q g e v
+            else report_viol ["c13_ok_quant (witness line)"] end
+      | "U" :: lo :: _hi :: s :: v :: count :: meanbits :: total :: [] ->
+          (* count occurrences of one value: the mean is that value's median equivalent, within the precision bound *)
+          incr n;
+          let bits = Int64.of_string ("0u" ^ meanbits) in
+          let mean = Int64.float_of_bits bits in
+          let vf = Int64.to_float (Int64.of_string v) in
+          let bound = vf /. (10.0 ** float_of_string s) +. Int64.to_float (Int64.of_string lo) +. 1.0 in
+          if total <> count then report_viol ["total count of the witness"]
+          else if Float.abs (mean -. vf) > bound then begin
+            (* count * value beyond 2^63: the recorded finding; anything else is a violation *)
+            if Int64.to_float (Int64.of_string count) *. vf >= 9.2e18 then
+              Printf.printf "KNOWN mean-overflow value=%s count=%s: Mean() = %g\n" v count mean
+            else report_viol ["mean of the witness"] end
       | _ -> failwith "unknown case kind"
     with
     | Failure msg -> incr errs; Printf.printf "ERROR %d %s :: %s\n" (ln + 1) msg (clip 200 line)
